@@ -459,7 +459,8 @@ impl<'a, S: System> Bfs<'a, S> {
                 if d + 1 == self.depth || res.samples.is_empty() {
                     res.samples = next
                         .iter()
-                        .step_by((next.len() / 3).max(1))
+                        .skip(next.len() / 5)
+                        .step_by((next.len() / 4).max(1))
                         .take(3)
                         .map(|h| hist_desc(&self.cfg, self.alphabet, h))
                         .collect();
